@@ -19,7 +19,7 @@ class C01(PureCheck):
     warm_every = 2
     rule = ("every attribute record (9 fg x 9 bg x {absent,False,True}^6; quick: all 5,184 records without "
             "explicit False + sampled False variants) built through fmtstr(text, **kwargs) with 7 texts "
-            "(empty, ASCII, controls, wide+combining, a combining mark / ZWJ alone in its run), runs of blanks only under every single attribute and fg + each other attribute, every C0 (without ESC) / DEL / C1 (without CSI) control character first, last and alone in a run, plus values that come out of the parser (FmtStr.from_str / fmtstr on every string of <=3 items over text and SGR / cursor-home sequences, closed or left open), plus multi-run values built with + (empty runs "
+            "(empty, ASCII, controls, wide+combining, a combining mark / ZWJ alone in its run), one run of 4095 / 4096 / 5000 / 65537 characters, runs of blanks only under every single attribute and fg + each other attribute, every C0 (without ESC) / DEL / C1 (without CSI) control character first, last and alone in a run, plus values that come out of the parser (FmtStr.from_str / fmtstr on every string of <=3 items over text and SGR / cursor-home sequences, closed or left open), plus multi-run values built with + (empty runs "
             "included); str(f) is lexed and the token list validated by TLC (Sgr.tla stream terminal). "
             "distinct_nontrivial = distinct (attribute records of all runs, text lengths) with at least one "
             "rendered attribute")
@@ -59,6 +59,13 @@ class C01(PureCheck):
                 if any(c[0] == "\x1b" for c in combo) and any(c[0] != "\x1b" for c in combo):
                     k += 1
                     yield {"runs": [], "raw": enc.enc_text("".join(combo)), "via": k % 2}
+        # one very long run (around 4096 and 65536 characters) under single attributes and pairs
+        for n in (4095, 4096, 5000, 65537):
+            for a in ([0, 5, 0, 0, 0, 0, 0, 0], [2, 0, 0, 0, 0, 0, 0, 0], [2, 5, 0, 0, 0, 0, 0, 0], [0, 1, 1, 0, 0, 0, 0, 0],
+                      [0, 0, 2, 0, 0, 0, 0, 0], [0, 8, 0, 0, 0, 2, 0, 0]):
+                if n < 60000 or a[1] == 5:
+                    yield {"runs": [[[120] * n, list(a)]]}
+                    yield {"runs": [[[62], [5, 0, 0, 0, 0, 0, 0, 0]], [[20013] * n, list(a)], [[33], [0] * 8]]}
         # texts spelled like a fragment of the very escape sequence that will wrap them ("31" in red, "1m" in bold, "[44"
         # on blue): rendered first, then cut - head and tail - and rendered again
         for text, a in (("31", [2, 0, 0, 0, 0, 0, 0, 0]), ("[3", [2, 0, 0, 0, 0, 0, 0, 0]), ("1m", [0, 0, 2, 0, 0, 0, 0, 0]),
